@@ -176,7 +176,7 @@ TRANSFORMS = {"continuous_index": t_continuous_index, "line_impedance": t_line_i
 def special_net(rng, pp, name):
     kw = {}
     net = netgen.random_net(rng, dcline=False, allow_oos=(name in ("drop_inactive", "select_subnet")) or rng.random() < 0.3)
-    if rng.random() < 0.3:
+    if rng.random() < (0.6 if name in ("select_subnet", "merge_nets") else 0.3):
         net.f_hz = 60.          # (line charging depends on the frequency of the net object)
     if name == "line_impedance":
         for i in net.line.index:
